@@ -18,6 +18,7 @@ validated line by line by specs/TraceAccess.tla; rejected lines are re-executed
 alone (TestZZVerifC03One) before they count.
 """
 import ipaddress
+import itertools
 import json
 import random
 import threading
@@ -147,17 +148,25 @@ def classify(rec):
     try:
         bad_id = "_" in (rec.get("id") or "")
 
-        def pred(fix):
-            ex = _client_blocked(rec["conc"], rec["addr"], rec.get("id"), fix == KEY_IDCASE, fix == KEY_MENTRY)
-            hv = _host_code(rec.get("hosts"), rec.get("name") or [], rec.get("qtype"), lowered=fix != KEY_REGEXP)
+        def pred(present):
+            ex = _client_blocked(rec["conc"], rec["addr"], rec.get("id"),
+                                 fix_case=KEY_IDCASE not in present, fix_mapped=KEY_MENTRY not in present)
+            hv = _host_code(rec.get("hosts"), rec.get("name") or [], rec.get("qtype"), lowered=KEY_REGEXP in present)
             return _predict(rec["level"], rec["proto"], bad_id, ex, hv)
 
+        # Which of the three defects are still present in the tree under test is
+        # not known (fixes land one by one): take the largest set of present
+        # defects whose model predicts the observed outcome, and attribute the
+        # disagreement to a defect of that set whose repair alone excludes it.
         got = rec["got"]
-        if got not in pred(None):
-            return None
-        for key in (KEY_IDCASE, KEY_MENTRY, KEY_REGEXP):
-            if got not in pred(key):
-                return key
+        allk = (KEY_IDCASE, KEY_MENTRY, KEY_REGEXP)
+        for size in (3, 2, 1):
+            for base in itertools.combinations(allk, size):
+                if got not in pred(set(base)):
+                    continue
+                for key in base:
+                    if got not in pred(set(base) - {key}):
+                        return key
     except (ValueError, KeyError, IndexError, TypeError):
         return None
     return None
